@@ -14,7 +14,9 @@ Inductive case :=
 | CExSplit (amt split : Z) (obs : option Z)              (* Keeper.CalculateExchangeSplit, one coin *)
 | CCommit (i : cfee_in) (obs : option (Z * Z))           (* CalculateCommitmentSettlementFee:
                                                             (converted intermediary amount, fee) *)
-| CBips (amt bips : Z) (obs : option (Z * Z)).           (* msgfees SplitCoinByBips *)
+| CBips (amt bips : Z) (obs : option (Z * Z))            (* msgfees SplitCoinByBips *)
+| CDist (ops : list (Z * Z * option N)) (nrec : N) (obs : Z * Z * list Z).
+    (* MsgFeesDistribution.Increase sequence; obs = (total, module part, amount per recipient id 0..nrec-1) *)
 
 Definition flat {A} (o : option (option A)) : option A :=
   match o with Some (Some x) => Some x | _ => None end.
@@ -98,6 +100,17 @@ Definition check (c : case) : list string :=
              tag (Z.eqb (r + rest) amt && (0 <=? r) && (0 <=? rest)) "prop:split_adds_up"
          | None => ["prop:bips_split_failed"]
          end else [])
+  | CDist ops nrec (tot, modp, recs) =>
+      let d := dist_run dist_empty ops in
+      let model_recs := map (fun i => match find (fun p => N.eqb (fst p) (N.of_nat i)) (d_recips d) with
+                                      | Some (_, v) => v | None => 0 end) (seq 0 (N.to_nat nrec)) in
+      tag (Z.eqb (d_total d) tot && Z.eqb (d_module d) modp && list_eqb Z.eqb model_recs recs) "corr:fee_distribution" ++
+      (if forallb (fun o => let '(a, b, _) := o in (0 <=? b) && (b <=? 10000) && (a <? int_max)) ops then
+         tag (Z.eqb tot (modp + fold_right Z.add 0 recs)) "prop:distribution_parts_do_not_add_up" ++
+         tag ((0 <=? modp) && forallb (fun v => 0 <=? v) recs) "prop:distribution_part_negative" ++
+         tag (Z.eqb tot (fold_right (fun o acc => let '(a, _, _) := o in (if 0 <? a then a else 0) + acc) 0 ops))
+             "prop:distribution_total_is_not_the_sum_of_the_fees"
+       else [])
   end.
 
 Definition check_all := check_list check.
